@@ -428,6 +428,8 @@ func genBackend(t *rapid.T, c *Client, o genOpts) Backend {
 	b.Trailers = genHeaderKVs(t, "resp_trl", 2)
 	b.TrailerStyle = rapid.SampledFrom([]string{"declared", "prefixed"}).Draw(t, "trailer_style")
 	b.TrailerCase = rapid.SampledFrom([]string{"", "", "lower", "mixed", "upper"}).Draw(t, "trailer_case")
+	b.TrailerOneLine = rapid.IntRange(0, 2).Draw(t, "trailer_one_line") == 0
+	b.CompactTrailers = rapid.IntRange(0, 3).Draw(t, "compact_trailers") == 0
 	b.CompressEnd = b.Compress && rapid.IntRange(0, 2).Draw(t, "compress_end") == 0
 	b.CompressError = b.Compress && rapid.IntRange(0, 2).Draw(t, "compress_error") == 0
 	if b.Kind == "ok" {
